@@ -109,14 +109,23 @@ func c12Bomb(rec *vcommon.Rec, name string) {
 		}()
 		// give the writer the processor first: a runaway Write shows within a blink, a healthy one just waits for polls
 		finished := ""
-		for i := 0; i < 60 && finished == ""; i++ {
+		var last uint64
+		quiet := 0
+		for i := 0; i < 2000 && finished == "" && quiet < 4; i++ {
 			select {
 			case finished = <-done:
 			case <-time.After(5 * time.Millisecond):
 			}
-			if a := alloc(); a > c12BombStop {
-				fail(a, "server-side Write(100 bytes) still running after options(fragsize=0) was "+how)
+			a := alloc()
+			if a > c12BombStop/4 {
+				fail(a, "server-side Write(100 bytes) still running (no poll sent yet) after options(fragsize=0) was "+how)
 			}
+			if a-last < 4096 {
+				quiet++ // the writer is parked, waiting for polls
+			} else {
+				quiet = 0
+			}
+			last = a
 		}
 		// now poll like the client would (in a goroutine: a poll can sit behind the runaway writer's lock)
 		var got int64
